@@ -24,7 +24,7 @@ echo "-- build"
 ( cd $WT && cmake -G Ninja -B _build -DCMAKE_BUILD_TYPE=RelWithDebInfo >/dev/null 2>&1 && cmake --build _build -j16 2>&1 | tail -2 ); 
 if [ "$NOCTEST" != "--no-ctest" ]; then
 echo "-- ctest (stable 30)"
-( cd $WT && ctest --test-dir _build -j6 --timeout 900 -R "^($STABLE)\$" 2>&1 | tail -6 )
+( cd $WT && ctest --test-dir _build -j3 --timeout 900 -R "^($STABLE)\$" 2>&1 | tail -6 )
 ( cd $WT && ctest --test-dir _build --rerun-failed --timeout 900 2>&1 | tail -4 )
 fi
 git -C /repo worktree remove --force $WT
